@@ -10,6 +10,15 @@ def main(tier):
     seed = vcheck.seed()
     common.model_step(chk, "C15", tier)
     sp = common.fit_frag(common.transfer_specs(tier, seed + 15))
+    # a slot with history: the earlier tenant had negotiated a large fragment size; packets for the new client reach the
+    # server while it is still in its handshake, i.e. before it has set any size - at most the conservative default
+    for i in range(8 if tier == "quick" else 48):
+        sp.append({"seed": (seed + 15) * 100000 + 80000 + i,
+                   "sess": {"qtype": common.QTYPES[i % 7], "lazy": i % 2, "prior": True, "hs_tun": 1 + i % 3,
+                            "fragsize": [None, 300, 600][i % 3]},
+                   "relay": {}, "pkts": [[300, "S", "C0", "rand", 700], [900, "C0", "S", "rand", 300]], "dur_ms": 8000,
+                   "label": "priorhs%d" % i})
+    sp = common.fit_frag(sp)
     results = common.run_specs(sp, ["C15"])
     # scripted client that changes the fragment size while a packet is in flight (the stock client sets it once)
     import random
@@ -25,6 +34,12 @@ def main(tier):
                     "change_at": sorted(rng.sample(range(1, 12), n - 1)), "offer_at": [rng.randrange(5, 30)],
                     "pings": 40, "check_ip": i % 5 != 0, "label": "fragscript%d" % i})
     for i, f in enumerate(fsp):
+        if i % 5 == 3:
+            f["prior_n"] = [1000, 4000, 300, 65535][(i // 5) % 4]
+            f["late_n"] = True
+            f["change_at"] = sorted(set(f["change_at"]) | {6})
+        elif i % 5 == 4:
+            f["late_n"] = True
         if i % 2:
             pool = [{"c": "L", "src": 1, "uid": 0, "claim": 1}, {"c": "I", "src": 1, "uid": 0},
                     {"c": "S", "src": 1, "uid": 0, "arg": "b32"}, {"c": "L", "src": 1, "uid": 0, "claim": 1},
